@@ -1582,11 +1582,11 @@ namespace awkward {
       else {
         return std::pair<Index64, ContentPtr>(
           Index64(0),
-          std::make_shared<UnionArrayOf<T, I>>(Identities::none(),
-                                               util::Parameters(),
-                                               tags_,
-                                               index_,
-                                               contents));
+          UnionArrayOf<T, I>(Identities::none(),
+                             util::Parameters(),
+                             tags_,
+                             index_,
+                             contents).simplify_uniontype(true, false));
       }
     }
   }
@@ -2082,11 +2082,11 @@ namespace awkward {
                                                        posaxis,
                                                        depth));
       }
-      return std::make_shared<UnionArrayOf<T, I>>(identities_,
-                                                  util::Parameters(),
-                                                  tags_,
-                                                  index_,
-                                                  contents);
+      return UnionArrayOf<T, I>(identities_,
+                                util::Parameters(),
+                                tags_,
+                                index_,
+                                contents).simplify_uniontype(true, false);
     }
   }
 
